@@ -284,7 +284,7 @@ def case_term(texts, facts, sched, obs, priv):
 
 def lexer_private():
     import gen_enginefacts
-    return gen_enginefacts.probe()["private"]
+    return gen_enginefacts.probe_guarded()["private"]
 
 
 def tables_snapshot(eng):
@@ -475,6 +475,10 @@ def oracle(run, deep):
                              {"text": a, "other_text": repr(b), "after_fetch": at, "observed": repr(got), "required": repr(fresh[a]),
                               "theorem": "C01_schedule_independent (premise lexer_private)"})
                     return
+    if serialising[0]:
+        # the abandoned emulation thread keeps its parse (and whatever the engine holds during a parse) forever: the other
+        # stages get an engine object of their own
+        eng = engine()
     route_schedules(run, eng, fresh)
     option_engines(run, fresh)
     process_wide_state(run)
@@ -740,11 +744,13 @@ def free_running(run, eng, fresh, seconds=None):
             if g != fresh[t]:
                 bad.append((t, repr(g), repr(fresh[t])))
     try:
-        ths = [threading.Thread(target=worker, args=(k,)) for k in range(4)]
+        ths = [threading.Thread(target=worker, args=(k,), daemon=True) for k in range(4)]
         for t in ths:
             t.start()
         for t in ths:
-            t.join()
+            t.join(seconds + 60)
+        if any(t.is_alive() for t in ths):
+            bad.append(("<any>", "a parse call never returns (free-running threads on one engine)", "every call returns"))
     finally:
         sys.setswitchinterval(old)
     run.count("free_running_seconds", int(seconds))
